@@ -46,6 +46,8 @@ type Engine struct {
 	noAccel    bool
 	noIfConv   bool
 	noSlice    bool
+	noGuess    bool
+	ifConvInts bool
 
 	mu          sync.Mutex
 	bounds      map[string]int64
